@@ -820,6 +820,8 @@ def rule_int_format(rep: Report, repo: Repo, clo: List[Tuple[str, str, ast.Funct
             continue                              # the length-safe helper itself (its fallback is checked below)
         tainted = local_taint(rel, q, fn)
         floats = {a.arg for a in fn.args.args + fn.args.kwonlyargs if a.annotation is not None and norm(a.annotation) == 'float'}
+        # the value of a sly token is whatever literal the user wrote (the NUMBER / STRING actions store an int of any size in it)
+        tokens = {a.arg for a in fn.args.args if a.annotation is not None and norm(a.annotation) == 'Token'} if q.startswith(('FJParser.', 'FJLexer.')) else set()
         sinks: List[Tuple[ast.AST, str]] = []
         for n in walk_no_nested(fn):
             if isinstance(n, ast.FormattedValue):
@@ -846,6 +848,8 @@ def rule_int_format(rep: Report, repo: Repo, clo: List[Tuple[str, str, ast.Funct
             if isinstance(expr, ast.Call) and dotted(expr.func) in SAFE_INT_FORMATTERS:
                 continue
             direct = hot_(expr, tainted) and not isinstance(expr, ast.BinOp)
+            if isinstance(expr, ast.Attribute) and expr.attr == 'value' and isinstance(expr.value, ast.Name) and expr.value.id in tokens:
+                direct = True
             # Expr.__str__: the int value of the node itself
             self_value = q == 'Expr.__str__' and norm(expr) == 'self.value' and any(
                 isinstance(i, ast.If) and 'isinstance(self.value, int)' in norm(i.test) and any(expr is y for b in i.body for y in ast.walk(b))
